@@ -34,6 +34,9 @@ CHECKS = {
   "C03": dict(level="model_checking", design="3.6, 4 (C03)",
       text="MxX509 states the property (Valid: a signed path to an anchor with CA/keyUsage/pathLen/validity/critical-extension rules) and the transcribed procedure of matrixValidateCertsExt/psX509AuthenticateCert (Walk); TLC compares them exhaustively over 77k abstract scenarios (7 chain shapes x 5 anchor sets x two single-field deviations anywhere: signatures corrupted/wrong key/copied octets, names, CA flag, pathLen, keyUsage, validity, critical unknown extension, algorithm, AKI/SKI, EKU). The same scenarios are generated as real DER certificates with OpenSSL and run through the library; every answer is validated by TLC against Valid (soundness, and completeness on the supported subset).",
       technique="TLA+ spec MxX509 (Valid vs transcribed Walk) checked by TLC + validation of the library's verdicts on generated chains (MxX509_Trace)"),
+  "C04": dict(level="model_checking", design="3.1, 4 (C04)",
+      text="MxAuth (credential class x callback mode x proof-of-possession class -> the three verification steps Certificate / signed message / Finished, one rule for all versions) is model-checked for AuthBeforeComplete, NoCallbackMeansFatal and NeverToldNoFailure. Every scenario (5 versions incl. DTLS x RSA transport / ECDHE-RSA / ECDHE-ECDSA / static ECDH / TLS 1.3 signature schemes x client and server verifier x no / strict / permissive callback x 14 single-defect chains built with OpenSSL x {bad signature, rewritten SignatureScheme, signature lifted from another handshake, parameters changed after signing, wrong private key}) is executed as a real handshake against a deviant prover and its trace validated step by step against MxAuth_Trace: a message is accepted, the callback is told an alert, the handshake completes only as the model allows.",
+      technique="TLA+ spec MxAuth checked by TLC + trace validation of real handshakes with defective credentials / proofs (MxAuth_Trace, MxSession_Trace)"),
   "C05": dict(level="model_checking", design="3.6, 4 (C05)",
       text="MxName states the matching rule (exact case-insensitive match per kind, '*' for exactly one left-most label, CN only without supported SAN); TLC tabulates it over a universe of patterns x expected names and checks order independence, CN-only-without-SAN and one-label wildcards as invariants. Real leaf certificates with generated SAN lists (0-3 entries from a pool with wildcards in every position, partial wildcards, case variants, trailing dots, control characters, trailing/double/embedded NULs, e-mail, IP, URI entries; every order of sampled pairs/triples) x CN choices are run through matrixValidateCertsExt for each expected name of a grammar, and every verdict is validated by TLC against Match (soundness; completeness on names without trailing dot).",
       technique="TLA+ spec MxName checked by TLC + validation of the library's verdicts on generated certificates (MxName_Trace)"),
@@ -44,7 +47,9 @@ CHAN_NOTE = ("Trusted base: TLC; link-time wrappers around psAesInitGCM/psAesEnc
              "the driver compares delivered bytes with the peer application's stream; authenticity oracle as for C01. Bounds: model MaxMsgs/MaxEdits/MaxPhases (see cfg); implementation: sampled scenarios per suite family x version.")
 NAME_NOTE = ("Trusted base: TLC; OpenSSL (harness/certgen.c) writes the raw GeneralName octets; the abstract view of a name (labels, wildcard kind per label, flags) is computed by tools/namegen.py from the same string. "
              "CStringSan (a SAN entry with one terminating zero byte is read as the C string before it) is a named, deliberate behaviour of the library and modelled as such; e-mail local parts: soundness uses the case-insensitive reading, completeness the verbatim one.")
-NOTES = {"C05": NAME_NOTE, "C01": SESSION_NOTE, "C06": SESSION_NOTE, "C15": SESSION_NOTE, "C02": CHAN_NOTE, "C17": CHAN_NOTE, "C03": PKI_NOTE}
+AUTH_NOTE = ("Trusted base: TLC; OpenSSL (harness/certgen.c) builds each defective chain; the generator's scenario record is the ground truth. The deviant prover is a MatrixSSL session whose presented chain is swapped after key loading and whose own handshake messages are rewritten by the driver before sealing (for TLS <= 1.2 before they enter its transcript). "
+             "Not covered: revocation (CRL/OCSP), certificates refused by the parser (C03), renegotiation. Quick tier: three modes in full, the others sampled; thorough: all 11 modes in full.")
+NOTES = {"C04": AUTH_NOTE, "C05": NAME_NOTE, "C01": SESSION_NOTE, "C06": SESSION_NOTE, "C15": SESSION_NOTE, "C02": CHAN_NOTE, "C17": CHAN_NOTE, "C03": PKI_NOTE}
 
 def main():
     hooks_commits = subprocess.run(["git", "-C", "/repo", "log", "--format=%h %s", "--grep=^verif:"], capture_output=True, text=True).stdout.strip().splitlines()
